@@ -696,6 +696,28 @@ def high_water_sweep(ctx: Ctx, prop: str) -> None:
                     record(ctx, prop, o, "high-water")
 
 
+def keepalive_values_sweep(ctx: Ctx, prop: str) -> None:
+    """Unusual but legal keep-alive intervals (zero, an int, tiny, huge) with a closing event in the very chunk that completes the connect phase, and
+    on an idle session: the interval must not change what a close means."""
+    S = L.default_spec
+    t0 = L.core_start()
+    idx = 0
+    for K in (0, 0.0, 1, 1.0e6):
+        for framing in ("plain", "noise"):
+            for login in (False, True):
+                for tail in ("peer_disconnect", "garbage", "eof", "bad_pb", None):
+                    idx += 1
+                    if not ctx.mine(idx):
+                        continue
+                    if not K and tail is None:
+                        continue    # (a zero interval on a session that stays up pings in every loop iteration: no virtual time ever passes)
+                    spec = S(framing=framing, login=login, password="pw" if login else None, keepalive=K, tail=tail,
+                             program=[["connect"], ["sleep", 0.5], ["request", "device_info"], ["disconnect"]])
+                    if tail is None:
+                        spec["faults"] = [{"kind": "eof", "point": {"t": t0 + 0.3}, "posclass": "keepalive-values"}]
+                    record(ctx, prop, run_spec(spec), "keepalive-values")
+
+
 def deadline_specs(framings: tuple[str, ...] = ("noise", "plain"),
                    kinds: tuple[str, ...] = ("ok", "other-name", "other-key", "other-version", "invalid-password")) -> Any:
     """Specs for: the device's answer to the connect phase - conformant, or deviating (another name, a handshake error frame, another API version, a
